@@ -87,8 +87,22 @@ def run_checks(ctx, rep):
     return stats, samples
 
 
+def start_at_optimum_specs(ctx, n):
+    """Deterministic runs whose start point is (near) the optimum: nothing evaluated later is better than f(x0)."""
+    from .. import gen
+    rng = ctx.sub_rng("c04opt")
+    specs = []
+    for _ in range(n):
+        sp = gen.make_spec(rng, mode="det", geom=rng.choice(["box", "tight", "logbox", "unbounded"]), opt_loc="inside", cons=None, target=rng.choice(["quad", "abs", "ties"]))
+        sp["x0_unit"] = list(sp["c_unit"]) if rng.random() < 0.7 else [round(c + rng.choice([-1, 1]) * 2.0 ** -9, 6) for c in sp["c_unit"]]
+        sp["options"] = gen.small_options(rng, sp["D"], "det")
+        specs.append(sp)
+    return specs
+
+
 def run(ctx):
     rep = Report()
+    runlevel.with_extra(ctx, "c04opt", lambda: start_at_optimum_specs(ctx, 6 if ctx.quick else 60))
     stats, samples = run_checks(ctx, rep)
     rep.coverage = {
         "evaluations": stats["events"], "distinct_nontrivial": stats["moves"],
@@ -112,8 +126,8 @@ def widen(ctx, rep0):
     rep = Report()
     from .. import tracer, gen
     rng = ctx.sub_rng("c04w")
-    specs = []
-    for _ in range(80):
+    specs = start_at_optimum_specs(type(ctx)(ctx.pid, "thorough", ctx.seed + 1), 40)
+    for _ in range(60):
         sp = gen.make_spec(rng, mode="det", cons="rand")
         sp["options"] = gen.small_options(rng, sp["D"], "det")
         specs.append(sp)
